@@ -15,6 +15,7 @@ from liquid2 import TokenStream
 from liquid2 import TokenType
 from liquid2.ast import Partial
 from liquid2.ast import PartialScope
+from liquid2.builtin.expressions import identifier_as_source
 from liquid2.builtin import Identifier
 from liquid2.builtin import Literal
 from liquid2.builtin import parse_keyword_arguments
@@ -60,7 +61,7 @@ class IncludeNode(Node):
         assert isinstance(self.token, TagToken)
         var = f" with {self.var}" if self.var else ""
         if self.alias:
-            var += f" as {self.alias}"
+            var += f" as {identifier_as_source(self.alias)}"
         if self.args:
             var += ","
         args = " " + ", ".join(str(arg) for arg in self.args) if self.args else ""
